@@ -13,6 +13,8 @@ Decided (lockset argument + structure):
  EN-1    object::enabled: no level => false; otherwise level >= node level (decision table)
 Not decided: linearizability beyond race freedom, message text.
 """
+import re
+
 from engine import facts as F
 from engine import load
 from engine import lrules as L
@@ -66,6 +68,9 @@ def main(rep, tier, only):
     rep.rule("NOERASE", "no erase / clear / pop / release / sort / swap on the context tree anywhere in the log library", floor=1)
     rep.rule("INH-1", "find_or_create_child constructs the new child with the level of the node it is pushed into", floor=1)
     rep.rule("SET-1", "context::set assigns the given level to every node of make_pre_order(located subtree)", floor=1)
+    rep.rule("GET-1", "context::get walks the location from the root while children exist (a missing component ends the walk) and reports the level of the last node reached", floor=1)
+    rep.rule("FMT", "formatter chain in the documented order: chain(parent, child) = parent . child; object = chain(own formatter, location prefix); "
+                    "level_stream::log = chain(additional, level formatter); the prefix folds to the root with ancestors first", floor=4)
     rep.rule("EN-1", "object::enabled decision table: no level => false; level L => requested >= L", floor=2)
     locked = set()
     ctx_methods = L.method_fns(db, CTX)
@@ -249,6 +254,136 @@ def main(rep, tier, only):
             else:
                 rep.fail("EN-1", "object::enabled|" + nm, F.primary_site(fn), F.fn_name(fn),
                          why="decision table row differs from the specification", detail={"paths": [p.show() for p in paths]})
+    # GET-1: context::get follows the location from the root as long as children exist and reports the level of the last node reached
+    gcfg = sx.Config(inline_prefixes=("fcppt::optional::", "fcppt::algorithm::", "fcppt::loop::", "fcppt::cond", "fcppt::const_", "fcppt::detail::const_",
+                                      "fcppt::log::context::root", "fcppt::make_cref", "fcppt::reference::"), loop_bound=2)
+    for fn in L.method_fns(db, CTX, "get"):
+        try:
+            paths = sx.Interp(db, gcfg).paths(fn, this=("sym", "this"))
+        except sx.Unsupported as e:
+            rep.broken("context::get outside the interpreted fragment: %s" % e)
+            continue
+        why = None
+        complete = 0
+        for p in paths:
+            evs = list(enumerate(p.events, 1))
+            roots = [i for i, e in evs if e[0].split("<")[0].endswith("context::impl::root")]
+            if len(roots) != 1:
+                why = "the walk does not start at the root exactly once"
+                break
+            cur = "#%d:root" % roots[0]
+            dec = {sx.show(a): b for a, b in p.decisions}
+            finds = [(i, e) for i, e in evs if e[0].split("<")[0] == "fcppt::log::impl::find_child_const"]
+            stopped = False
+            for k, (i, e) in enumerate(finds):
+                a = [sx.show(x) for x in e[1]]
+                if stopped:
+                    why = "a child is looked up after a component of the location was missing (components are skipped instead of ending the walk)"
+                    break
+                if a[0] != cur or "_location[%d]" % k not in a[1]:
+                    why = "lookup %d searches %s for %s; expected the node reached so far (%s) and component %d of the location" % (k, a[0], a[1], cur, k)
+                    break
+                hv = dec.get("has_value(#%d:find_child_const)" % i)
+                if hv is True:
+                    cur = "some_payload(#%d:find_child_const)" % i
+                elif hv is False:
+                    stopped = True
+                else:
+                    why = "the result of lookup %d is not examined" % k
+                    break
+            if why:
+                break
+            if p.outcome[0] != "return":
+                continue
+            complete += 1
+            n_more = len([1 for a, b in dec.items() if a.startswith("more(_location") and b])
+            if not stopped and len(finds) != n_more:
+                why = "%d components but %d lookups" % (n_more, len(finds))
+                break
+            vals = [(i, e) for i, e in evs if e[0].split("<")[0].endswith("tree::object::value")]
+            lvls = [(i, e) for i, e in evs if e[0].split("<")[0].endswith("context_tree_node::level")]
+            if len(vals) != 1 or sx.show(vals[0][1][1][0]) != cur or len(lvls) != 1 or sx.show(p.outcome[1]) != "#%d:level" % lvls[0][0]:
+                why = "the reported level is not that of the last node reached (%s): %s" % (cur, sx.show(p.outcome[1]))
+                break
+        if not why and complete < 3:
+            why = "fewer than 3 complete paths"
+        (rep.fail if why else rep.ok)("GET-1", "context::get", F.primary_site(fn), F.fn_name(fn), **({"why": why} if why else {"how": "longest-existing-prefix", "detail": {"paths": len(paths)}}))
+    # FMT: formatter chain order. Documented (examples/log/formatting.cpp, level_stream.hpp): object formatter ( location prefix ( level formatter ( text ) ) )
+    for fn in db.fns("fcppt::log::format::chain"):
+        u = fn["_unit"]
+        why = "chain is not combine(_parent, _child, (f1, f2) -> (x -> f1(f2(x))))"
+        names = [p_["name"] for p_ in fn.get("params", [])]
+        for n in F.walk(fn.get("body")):
+            if n.get("k") == "call" and T.callee_qn(u, n) == "fcppt::optional::combine" and len(n.get("args", [])) == 3:
+                a0, a1 = T.show(T.norm(u, n["args"][0])), T.show(T.norm(u, n["args"][1]))
+                lam = T.unwrap(u, n["args"][2])
+                if [a0, a1] != names or lam is None or lam.get("k") != "lambda" or len(lam.get("ops", [])) != 1:
+                    why = "combine is called with (%s, %s), expected (%s, %s)" % (a0, a1, names[0], names[1])
+                    break
+                outer = [p_["id"] for p_ in lam["ops"][0].get("params", [])]
+                inner = [x for x in F.walk(lam["ops"][0].get("body")) if x.get("k") == "lambda"]
+                if len(outer) != 2 or len(inner) != 1 or len(inner[0].get("ops", [])) != 1:
+                    break
+                iop = inner[0]["ops"][0]
+                rets = [r for r in F.walk(iop.get("body"), into_lambdas=False) if r.get("k") == "return"]
+                if len(rets) != 1:
+                    break
+                e = T.unwrap(u, rets[0]["e"])
+                def callee_ref(c):
+                    if c is None or c.get("k") != "call":
+                        return None
+                    r = T.unwrap(u, c.get("recv")) if c.get("recv") is not None else (T.unwrap(u, c.get("fn")) if c.get("fn") is not None else None)
+                    return r.get("id") if r is not None and r.get("k") == "ref" else None
+                o = callee_ref(e)
+                i_ = callee_ref(T.unwrap(u, (e.get("args") or [None])[0])) if e is not None and e.get("k") == "call" and e.get("args") else None
+                caps = {c.get("name"): c for c in inner[0].get("captures", [])}
+                # captured copies of f1 / f2 carry their own decl ids: compare by name
+                def nm(i):
+                    for x in F.walk(iop.get("body")):
+                        if x.get("k") == "ref" and x.get("id") == i:
+                            return x.get("name")
+                on, in_ = nm(o), nm(i_)
+                p1 = lam["ops"][0]["params"][0]["name"]
+                p2 = lam["ops"][0]["params"][1]["name"]
+                if on == p1 and in_ == p2:
+                    why = None
+                else:
+                    why = "the composed formatter is %s(%s(x)), expected parent(child(x)) = %s(%s(x))" % (on, in_, p1, p2)
+                break
+        (rep.fail if why else rep.ok)("FMT", "format::chain", F.primary_site(fn), F.fn_name(fn), **({"why": why} if why else {"how": "parent . child"}))
+        break
+    for fn in L.method_fns(db, "fcppt::log::object"):
+        if fn.get("kind") != "ctor" or len(fn.get("params", [])) != 3:
+            continue
+        u = fn["_unit"]
+        if "context_tree" not in (u.ty(fn["params"][1]["t"]) or "") and fn["params"][1]["name"] != "_node":
+            continue
+        init = next((i for i in fn.get("inits", []) if i.get("field") == "formatter_"), None)
+        t = T.show(T.norm(u, init["init"])) if init else ""
+        ok = bool(re.search(r"chain\(_parameters\.formatter\(\), tree_formatter\(node_(\.get\(\))?\)\)", t))
+        (rep.ok if ok else rep.fail)("FMT", "object::object|formatter_", F.primary_site(fn), F.fn_name(fn),
+                                     **({"how": "chain(own formatter, location prefix)"} if ok else
+                                        {"why": "formatter_ is %s; documented order is chain(parameters.formatter(), tree_formatter(node)): the object's own formatter wraps the location prefix" % t}))
+    for fn in L.method_fns(db, "fcppt::log::level_stream", "log"):
+        u = fn["_unit"]
+        chains = [T.show(T.norm(u, n)) for n in F.walk(fn.get("body")) if n.get("k") == "call" and T.callee_qn(u, n) == "fcppt::log::format::chain"]
+        ok = chains == ["chain(_additional_formatter, formatter())"] or chains == ["chain(_additional_formatter, this.formatter())"]
+        (rep.ok if ok else rep.fail)("FMT", "level_stream::log", F.primary_site(fn), F.fn_name(fn),
+                                     **({"how": "chain(additional, level formatter)"} if ok else
+                                        {"why": "level_stream::log composes %s; documented: the additional (object) formatter is used first, i.e. chain(_additional_formatter, formatter())" % chains}))
+    for fn in db.fns("fcppt::log::impl::tree_formatter"):
+        u = fn["_unit"]
+        why = None
+        folds = [n for n in F.walk(fn.get("body"), into_lambdas=False) if n.get("k") == "call" and T.callee_qn(u, n) == "fcppt::algorithm::fold"]
+        if len(folds) != 1 or "make_to_root(_node)" not in T.show(T.norm(u, folds[0]["args"][0])):
+            why = "the prefix is not a fold over make_to_root(_node)"
+        else:
+            chains = [n for n in F.walk(folds[0]["args"][2]) if n.get("k") == "call" and T.callee_qn(u, n) == "fcppt::log::format::chain"]
+            a = [T.show(T.norm(u, x)) for x in chains[0]["args"]] if len(chains) == 1 else []
+            if len(a) != 2 or "prefix(" not in a[0] or "_state" not in a[1] or "_state" in a[0]:
+                why = "each step is chain(%s): expected chain(prefix(name of the node), accumulated formatter) so that ancestors come first" % ", ".join(a)
+        (rep.fail if why else rep.ok)("FMT", "tree_formatter", F.primary_site(fn), F.fn_name(fn), **({"why": why} if why else {"how": "fold to root: chain(prefix(name), state)"}))
+        break
     rep.explanation = ("Lockset argument made structural: all accesses to the node tree's child lists happen inside functions "
                        "that hold impl_->mutex() through a std::lock_guard whose scope is the whole body; the only state read "
                        "outside is atomic or immutable after publication; nodes are never removed. Plus the inheritance / "
